@@ -604,7 +604,7 @@ def kcoreness_centrality_bd(CIJ):
 
     for k in range(N):
         CIJkcore, kn[k] = kcore_bd(CIJ, k)
-        ss = np.sum(CIJkcore, axis=0) > 0
+        ss = (np.sum(CIJkcore, axis=0) + np.sum(CIJkcore, axis=1)) > 0
         coreness[ss] = k
 
     return coreness, kn
